@@ -308,9 +308,22 @@ func (u *UnitsDefinition) handleParseMultiplier(
 				Message: fmt.Sprintf("Failed to parse number as int: %s", result),
 			}
 		}
-		floatNumber += float64(i * multiplier)
+		// The counts matched by the expression are never negative, so overflow is detected by
+		// comparing against the largest representable value.
+		if multiplier > 0 && i > math.MaxInt64/multiplier {
+			return intNumber, floatNumber, isFloat, BadArgumentError{
+				Message: fmt.Sprintf("Number out of range: %s times %d does not fit into 64 bits", result, multiplier),
+			}
+		}
+		product := i * multiplier
+		if !isFloat && product > math.MaxInt64-intNumber {
+			return intNumber, floatNumber, isFloat, BadArgumentError{
+				Message: fmt.Sprintf("Number out of range: adding %s times %d does not fit into 64 bits", result, multiplier),
+			}
+		}
+		floatNumber += float64(product)
 		if !isFloat {
-			intNumber += i * multiplier
+			intNumber += product
 		}
 	}
 	return intNumber, floatNumber, isFloat, nil
